@@ -158,14 +158,16 @@ def dispatchArgs (fs : Fields) : Option Bytes :=
 
 /-! ## the sections of `generateTemplate`, in the order of the source -/
 
-/-- `a.Type.Kind == idl.TypeObject || a.Type.Kind == idl.TypeAlias`: the declaration is a Go type alias
-    (`type A = B`), because a defined type would lose json.RawMessage's MarshalJSON/UnmarshalJSON -/
+/-- `a.Type.Kind == idl.TypeObject || a.Type.Kind == idl.TypeAlias || a.Type.Kind == idl.TypeMaybe`: the
+    declaration is a Go type alias (`type A = B`), because a defined type would lose json.RawMessage's
+    MarshalJSON/UnmarshalJSON -/
 def isAliasDecl : Ty → Bool
   | .object => true
   | .named _ => true
+  | .maybe _ => true
   | _ => false
 
-/-- main.go:112-121 -/
+/-- main.go:112-122 -/
 def aliasDecl : Member → Option Bytes
   | .alias n d ty => (writeType ty true 0).map (fun t =>
       writeDocString d ++ str "type " ++ n ++ str " " ++ (if isAliasDecl ty then str "= " else []) ++ t
